@@ -360,3 +360,57 @@ send_tree_harness!(kd5_send_tree_n4, 4, 0);
 send_tree_harness!(kd5_send_tree_n5, 5, 0);
 send_tree_harness!(kd5_send_tree_n7, 7, 0);
 send_tree_harness!(kd5_send_tree_z11_n13, 13, 11);
+
+// ---------------------------------------------------------------------------------------------------------------
+// build_bl_tree: how many code lengths of the code-length alphabet are announced (HCLEN).  RFC 1951 3.2.7 sends them in the
+// order 16, 17, 18, 0, 8, 7, 9, 6, 10, 5, 11, 4, 12, 3, 13, 2, 14, 1, 15; every symbol that has a code must be among the
+// announced ones, trailing unused ones are cut (at least 4 stay).  scan_tree and build_tree are decided by KD5 and the
+// harnesses above and are stubbed away here: the bit-length tree is given, with any lengths.
+// ---------------------------------------------------------------------------------------------------------------
+const RFC_CL_ORDER: [usize; 19] = [16, 17, 18, 0, 8, 7, 9, 6, 10, 5, 11, 4, 12, 3, 13, 2, 14, 1, 15];
+
+pub(crate) fn stub_scan_tree_nop(_bl: &mut TreeDesc<{ 2 * BL_CODES + 1 }>, _tree: &mut [Value], _max_code: usize) {}
+pub(crate) fn stub_build_tree_nop<const N: usize>(_state: &mut State, _desc: &mut TreeDesc<N>) {}
+
+#[kani::proof]
+#[kani::unwind(26)] // mem::swap of the TreeDesc (172 bytes) is a chunked byte-swap loop
+#[kani::stub(core::fmt::write, stub_fmt_write)]
+#[kani::stub(core::panicking::panic_nounwind, stub_pn)]
+#[kani::stub(core::panicking::panic_nounwind_fmt, stub_pnf)]
+#[kani::stub(crate::deflate::scan_tree, stub_scan_tree_nop)]
+#[kani::stub(crate::deflate::build_tree, stub_build_tree_nop)]
+fn kd4_build_bl_tree_announces_every_used_length() {
+    let mut w = [0u8; 2 << 4];
+    let mut p = [0u16; 1 << 4];
+    let mut h = [0u16; HASH_SIZE];
+    let mut pe = [MaybeUninit::new(0u8); 4 * 8];
+    let mut sy = [0u8; 3 * 8];
+    let mut state = typed_state(&mut w, &mut p, &mut h, &mut pe, &mut sy, 4, 8, 6, 0, Strategy::Default);
+    let lens: [u8; BL_CODES] = kani::any();
+    let mut s = 0;
+    while s < BL_CODES {
+        kani::assume(lens[s] <= 7);
+        state.bl_desc.dyn_tree[s] = Value::new(0, lens[s] as u16);
+        s += 1;
+    }
+    // invariant of every real call: the literal tree always contains the end-of-block symbol, whose non-zero length is one
+    // of 1..=15 and is counted by scan_tree — so at least one of those symbols has a code (with only 16/17/18 in use the
+    // function, like zlib's, would announce 3 lengths; no tree description can consist of repeat codes alone)
+    let w: usize = kani::any();
+    kani::assume(w >= 1 && w <= 15 && lens[w] != 0);
+    let opt0: usize = 1000;
+    state.opt_len = opt0;
+    let last = build_bl_tree(&mut state);
+    assert!(last >= 3 && last < BL_CODES, "at least 4, at most 19 lengths are sent");
+    assert!(state.opt_len == opt0 + 3 * (last + 1) + 5 + 5 + 4);
+    let k: usize = kani::any();
+    kani::assume(k < BL_CODES);
+    if k > last {
+        assert!(lens[RFC_CL_ORDER[k]] == 0, "a symbol with a code has its length announced");
+    }
+    assert!(last == 3 || lens[RFC_CL_ORDER[last]] != 0, "trailing unused symbols are cut");
+    kani::cover!(last == 18);
+    kani::cover!(last == 4);
+    kani::cover!(last == 17);
+    core::mem::forget(state);
+}
